@@ -12,6 +12,17 @@ let zl r = match r with
 let z = z_of_string
 let zs = Stdlib.List.map z_of_string
 
+(* one program_config_element: tag:object_type:sfi:xfront:xside:xback:xlfe:xassoc:xcc:mono:stereo:matrix:xcomment
+   (element lists one byte per element; "-" = mixdown flag 0) *)
+let pce_of_string s = match String.split_on_char ':' s with
+  | [tag; ot; sfi; fr; si; ba; lfe; assoc; cc; mono; stereo; matrix; comment] ->
+    InfoAac.pce_of (z tag) (z ot) (z sfi) (bytes_of_hex fr) (bytes_of_hex si) (bytes_of_hex ba) (bytes_of_hex lfe)
+      (bytes_of_hex assoc) (bytes_of_hex cc) (opt_z mono) (opt_z stereo) (opt_z matrix) (bytes_of_hex comment)
+  | _ -> failwith "pce: 13 fields"
+let adif_of_args cid orig home bst bitrate full pces =
+  InfoAac.adif_of (if cid = "-" then None else Some (bytes_of_hex cid)) (z orig) (z home) (z bst) (z bitrate) (z full)
+    (Stdlib.List.map pce_of_string pces)
+
 let init () =
   register "info_build" (fun (fmt :: a) ->
     let bytes = match fmt, a with
@@ -59,6 +70,8 @@ let init () =
       | "theora", [a1; a2; a3; a4; a5; a6; a7; a8; a9; a10; a11; a12; a13; a14; a15; a16] ->
         InfoOgg.build_theora_id (z a1) (z a2) (z a3) (z a4) (z a5) (z a6) (z a7) (z a8) (z a9) (z a10) (z a11)
           (z a12) (z a13) (z a14) (z a15) (z a16)
+      | "adif", cid :: orig :: home :: bst :: bitrate :: full :: tail :: pces ->
+        InfoAac.build_adif (adif_of_args cid orig home bst bitrate full pces) (bytes_of_hex tail)
       | "oggflac", hp :: rest -> InfoOgg.build_oggflac_id (z hp) (InfoFlac.flac_p_of_list (zs rest))
       | _ -> failwith "info_build: bad format or arity" in
     hex_of_bytes bytes);
@@ -69,6 +82,7 @@ let init () =
       | "mpeg" -> InfoMpeg.decode_mpeg_frame d
       | "mpeg_vbr" -> InfoXing.decode_mpeg_vbr d
       | "ac3" -> InfoAc3.decode_ac3 d
+      | "adif" -> InfoAac.decode_adif d
       | "flac" -> InfoFlac.decode_flac_streaminfo d
       | "wave" -> InfoIff.decode_wave_fmt d (match a with [x] -> opt_z x | _ -> failwith "data size")
       | "aiff" -> InfoIff.decode_aiff_comm d
@@ -88,4 +102,8 @@ let init () =
     match fmt with
     | "mpeg" -> zl (Ok (InfoMpeg.expected_mpeg (InfoMpeg.mpeg_p_of_list (zs a))))
     | "flac" -> zl (Ok (InfoFlac.expected_flac (InfoFlac.flac_p_of_list (zs a))))
+    | "adif" -> (match a with
+        | cid :: orig :: home :: bst :: bitrate :: full :: pces ->
+          zl (Ok (InfoAac.expected_adif (adif_of_args cid orig home bst bitrate full pces)))
+        | _ -> failwith "info_expected adif: arity")
     | _ -> failwith "info_expected: bad format")
